@@ -240,3 +240,89 @@ class Interp:
 def _as_load(t):
     t2 = ast.parse(ast.unparse(t), mode='eval').body
     return t2
+
+
+# ---------------------------------------------------------------------------------------------
+class NumInterp(Interp):
+    """Interp extended with a closed numpy vocabulary, comprehensions and container stores - used to
+    extract literal-ish numeric tables that are built with small loops (e.g. qudit X/Z eigen-components).
+    Only whitelisted numpy functions on values computed from the interpreted source are evaluated."""
+
+    def __init__(self, env, **kw):
+        import numpy as np
+        super().__init__(env, **kw)
+        self.np = np
+        self.npfuncs = {
+            'array': np.array, 'roll': np.roll, 'zeros': np.zeros, 'ones': np.ones, 'eye': np.eye, 'diag': np.diag,
+            'sqrt': np.sqrt, 'exp': np.exp, 'kron': np.kron, 'cos': np.cos, 'sin': np.sin, 'conj': np.conj, 'pi': np.pi,
+            'complex128': complex, 'complex64': complex, 'float64': float,
+        }
+        self.builtins = {'range': range, 'len': len, 'list': list, 'tuple': tuple, 'enumerate': enumerate, 'sum': sum,
+                         'int': int, 'float': float, 'complex': complex, 'abs': abs, 'max': max, 'min': min, 'zip': zip}
+
+    def ev(self, n):
+        if isinstance(n, ast.Name) and n.id not in self.env and n.id in self.builtins:
+            return self.builtins[n.id]
+        if isinstance(n, ast.Attribute) and isinstance(n.value, ast.Name) and n.value.id in ('np', 'numpy') and n.value.id not in self.env:
+            if n.attr in self.npfuncs:
+                return self.npfuncs[n.attr]
+            raise Unsupported(f'numpy.{n.attr} not in the whitelist')
+        if isinstance(n, (ast.ListComp, ast.GeneratorExp)):
+            return self._comp(n, 0, [])
+        if isinstance(n, ast.Call):
+            if isinstance(n.func, ast.Attribute) and n.func.attr == 'append':
+                recv = self.ev(n.func.value)
+                if isinstance(recv, list):
+                    recv.append(self.ev(n.args[0]))
+                    return None
+            try:
+                f = self.ev(n.func)
+            except Unsupported:
+                f = None
+            if callable(f):
+                args = [self.ev(a) for a in n.args]
+                kw = {k.arg: self.ev(k.value) for k in n.keywords if k.arg and k.arg != 'dtype'}
+                return f(*args, **kw)
+        if isinstance(n, ast.Subscript):
+            v = self.ev(n.value)
+            i = self.ev(n.slice)
+            try:
+                return v[i]
+            except Exception as e:
+                raise Unsupported(str(e))
+        if isinstance(n, ast.Slice):
+            return slice(self.ev(n.lower) if n.lower else None, self.ev(n.upper) if n.upper else None, self.ev(n.step) if n.step else None)
+        if isinstance(n, ast.Attribute):
+            if self.attr_hook is not None:
+                r = self.attr_hook(n, self)
+                if r is not NotImplemented:
+                    return r
+            v = self.ev(n.value)
+            if isinstance(v, dict) and n.attr in v:
+                return v[n.attr]
+            if isinstance(v, self.np.ndarray) and n.attr in ('T', 'shape', 'real', 'imag'):
+                return getattr(v, n.attr)
+            raise Unsupported(f'attribute {ast.unparse(n)}')
+        return super().ev(n)
+
+    def _comp(self, n, gi, acc):
+        if gi == len(n.generators):
+            acc.append(self.ev(n.elt))
+            return acc
+        g = n.generators[gi]
+        for x in self.ev(g.iter):
+            self.store(g.target, x)
+            if all(self.ev(c) for c in g.ifs):
+                self._comp(n, gi + 1, acc)
+        return acc
+
+    def store(self, t, v):
+        if isinstance(t, ast.Subscript):
+            cont = self.ev(t.value)
+            idx = self.ev(t.slice)
+            try:
+                cont[idx] = v
+            except Exception as e:
+                raise Unsupported(f'store {ast.unparse(t)}: {e}')
+            return
+        super().store(t, v)
